@@ -620,9 +620,23 @@ size_t qlisttbl_remove(qlisttbl_t *tbl, const char *name)
     qlisttbl_obj_t obj;
     memset((void*)&obj, 0, sizeof(obj)); // must be cleared before call
     qlisttbl_lock(tbl);
+    bool ownname = false;
     while (qlisttbl_getnext(tbl, &obj, name, false) == true) {
+        if (obj.name == name) {
+            // name is the key string of this element itself, so it must stay
+            // until the search is over. this one goes last.
+            ownname = true;
+            continue;
+        }
         qlisttbl_removeobj(tbl, &obj);
         numremoved++;
+    }
+    if (ownname == true) {
+        memset((void*)&obj, 0, sizeof(obj));
+        if (qlisttbl_getnext(tbl, &obj, name, false) == true) {
+            qlisttbl_removeobj(tbl, &obj);
+            numremoved++;
+        }
     }
     qlisttbl_unlock(tbl);
 
